@@ -228,7 +228,7 @@ pub fn run_pipeline(
             &mut pgid,
             &mut term_given,
             &mut cmd_result,
-            &pipes,
+            &mut pipes,
             &fds_capture_stdout,
             &fds_capture_stderr,
         );
@@ -272,7 +272,7 @@ fn run_single_program(
     pgid: &mut i32,
     term_given: &mut bool,
     cmd_result: &mut CommandResult,
-    pipes: &[(RawFd, RawFd)],
+    pipes: &mut [(RawFd, RawFd)],
     fds_capture_stdout: &Option<(RawFd, RawFd)>,
     fds_capture_stderr: &Option<(RawFd, RawFd)>,
 ) -> i32 {
@@ -573,14 +573,19 @@ fn run_single_program(
             }
 
             // (in parent) close unused pipe ends
+            // a closed end is forgotten (-1), so that later children do not
+            // close a descriptor number that has been reused meanwhile
+            // (e.g. by the pipe of a here-string)
             if idx_cmd < pipes_count {
                 let fds = pipes[idx_cmd];
                 libs::close(fds.1);
+                pipes[idx_cmd].1 = -1;
             }
             if idx_cmd > 0 {
                 // close pipe end only after dupped in the child
                 let fds = pipes[idx_cmd - 1];
                 libs::close(fds.0);
+                pipes[idx_cmd - 1].0 = -1;
             }
 
             if idx_cmd == pipes_count && options.capture_output {
